@@ -637,7 +637,7 @@ Record us_try := { t_parts : nat; t_patch : patch_res; t_get_ok : bool }.
 (** result: the number of PatchStatus calls made *)
 Fixpoint update_status (f : fixes) (tries : list us_try) : res nat :=
   match tries with
-  | [] => Ok 0
+  | [] => Ok 1                                       (* after the scripted tries: a well-formed status, PatchStatus succeeds *)
   | t :: r =>
     if Nat.ltb (t_parts t) 2 && negb (fx12 f) then Panic SActiveIn else
     match t_patch t with
